@@ -451,7 +451,8 @@ func connerrScenario(s *Sim, params map[string]string) {
 
 func init() { Scenarios["stallclose"] = stallcloseScenario }
 
-var scFirstOps = []int{1, 11, 99, 4, 5, 0, 3} // ReadBatch, short-buffer read, ReadBatch closed unread, ReadOffset, ReadPartitions, WriteMessages, ReadLastOffset
+var scFirstOps = []int{1, 11, 99, 4, 5, 0, 3, 98} // (98: a fetch limited to a few bytes, answered late)
+// ReadBatch, short-buffer read, ReadBatch closed unread, ReadOffset, ReadPartitions, WriteMessages, ReadLastOffset
 
 const scSplits = 4 // where the stall begins: inside the 8-byte frame header, early, in the middle, before the last byte
 
@@ -495,11 +496,26 @@ func stallcloseScenario(s *Sim, params map[string]string) {
 	env := &ceEnv{s: s, cl: cl, p: p, topic: "ce"}
 	firstName := "ReadBatch closed unread"
 	api := int16(1)
-	if first != 99 {
+	if first == 98 {
+		// the byte limit ends the response inside the header of the first
+		// message; the response arrives after the deadline the fetch was given
+		// (the connection's, less the round-trip allowance) and before the
+		// connection's own: the batch reports RequestTimedOut, a Kafka error,
+		// and the connection is kept
+		firstName = "ReadBatch whose record set is cut inside its first header, answered late"
+		cl.TruncateAtMaxBytes = true
+		cl.ForceRecordSetLimit = 30
+		if magic < 2 {
+			cl.ForceRecordSetLimit = 20
+		}
+	} else if first != 99 {
 		firstName, api = ceOpNames[first], ceOpAPI[first]
 	}
 	desc := fmt.Sprintf("case %d: %s (produce<=v%d fetch<=v%d metadata<=v%d); its response stalls for 3s %s, the connection's deadline is 1s; then %s", idx, firstName,
 		b.Versions[0][1], b.Versions[1][1], b.Versions[3][1], []string{"inside the frame header", "after 12 bytes", "half-way", "before its last byte"}[split], ceOpNames[follow])
+	if first == 98 {
+		desc = fmt.Sprintf("case %d: %s (produce<=v%d fetch<=v%d metadata<=v%d): the response arrives 1.7s into a 2s deadline; then %s", idx, firstName, b.Versions[0][1], b.Versions[1][1], b.Versions[3][1], ceOpNames[follow])
+	}
 	if two {
 		desc += " and, from a second goroutine, Brokers"
 	}
@@ -507,10 +523,18 @@ func stallcloseScenario(s *Sim, params map[string]string) {
 	cl.MutateFrame = func(r *Req, frame []byte) []byte {
 		if armed && !fired && r.Hdr.APIKey == api {
 			fired = true
-			r.Fault = "split"
-			s.Count("fault:stall-mid-response")
+			if first == 98 {
+				r.Fault = "slow"
+				s.Count("fault:late-truncated-fetch")
+			} else {
+				r.Fault = "split"
+				s.Count("fault:stall-mid-response")
+			}
 		}
 		return frame
+	}
+	if first == 98 {
+		cl.F.SlowMin, cl.F.SlowMax = 1700*time.Millisecond, 1700*time.Millisecond
 	}
 	cl.F.SplitMin, cl.F.SplitMax = 3*time.Second, 3*time.Second
 	cl.SplitAt = func(r *Req, n int) int {
@@ -554,9 +578,25 @@ func stallcloseScenario(s *Sim, params map[string]string) {
 			return
 		}
 		conn.SetDeadline(time.Now().Add(time.Second))
+		if first == 98 {
+			conn.SetDeadline(time.Now().Add(2 * time.Second))
+		}
 		armed = true
 		t0 := s.Now()
-		if first == 99 {
+		if first == 98 {
+			limit := 30
+			if magic < 2 {
+				limit = 20
+			}
+			bt := conn.ReadBatch(1, limit)
+			_, rerr := bt.ReadMessage()
+			cerr := bt.Close()
+			ra.err = rerr
+			if rerr == nil {
+				ra.err = cerr
+			}
+			s.Count(fmt.Sprintf("late-fetch-result cfg%d: %v", cfg, ra.err))
+		} else if first == 99 {
 			bt := conn.ReadBatch(1, 1<<20)
 			ra.err = bt.Close()
 		} else {
@@ -564,6 +604,7 @@ func stallcloseScenario(s *Sim, params map[string]string) {
 		}
 		ra.took, ra.done = s.Now()-t0, true
 		armed = false
+		cl.ForceRecordSetLimit, cl.TruncateAtMaxBytes = 0, false
 		s.Count("ops")
 		// a fresh deadline for what follows
 		conn.SetDeadline(time.Now().Add(6 * time.Second))
@@ -580,6 +621,11 @@ func stallcloseScenario(s *Sim, params map[string]string) {
 		}
 		rb.err, rb.wrong = env.doOp(follow, "b")
 		rb.took, rb.done = s.Now()-t1, true
+		// (the connection is closed when this function returns: not under the
+		// second goroutine's feet)
+		for two && !rc2.done && s.Now()-t1 < 8*time.Second {
+			s.Sleep(time.Millisecond)
+		}
 	})
 	s.DoneWhen(func() bool { return finished && (!two || rc2.done || !rb.done) })
 	s.AtEnd(func() {
@@ -596,7 +642,7 @@ func stallcloseScenario(s *Sim, params map[string]string) {
 		if ra.wrong != "" {
 			s.Fail("C11", "R3-wrong-value", "%s: first operation: %s", desc, ra.wrong)
 		}
-		if ra.took > time.Second+200*time.Millisecond {
+		if ra.took > time.Second+200*time.Millisecond && first != 98 {
 			s.Fail("C11", "R4-hang", "%s: the first operation returned after %v (deadline 1s)", desc, ra.took)
 		}
 		for i, r := range []*res{&rb, &rc2} {
@@ -611,6 +657,8 @@ func stallcloseScenario(s *Sim, params map[string]string) {
 				s.Fail("C11", "R3-wrong-value", "%s: %s: %s", desc, who, r.wrong)
 			case r.took > 6*time.Second+200*time.Millisecond:
 				s.Fail("C11", "R4-hang", "%s: %s returned after %v (deadline 6s)", desc, who, r.took)
+			case first == 98 && follow != 12 && (ra.err == nil || isKafkaErr(ra.err)) && r.err != nil: // (op 12 sets a short read deadline, which rightly hits a concurrent read operation)
+				s.Fail("C11", "R1-conn-unusable-after-kafka-error", "%s: the fetch ended with %v and the connection was kept; %s then failed with %v", desc, ra.err, who, r.err)
 			case ra.err != nil && !isKafkaErr(ra.err) && !errors.Is(ra.err, io.ErrShortBuffer) && r.err == nil:
 				s.Fail("C11", "R2-conn-reused-after-framing-error", "%s: the first operation failed with %v, yet %s succeeded on that connection", desc, ra.err, who)
 			}
